@@ -1,0 +1,12 @@
+//go:build verif
+
+package jerr
+
+// Contracts for govc (/verif). Comment-only file: invisible without -tags verif.
+
+//@ func NewJApiError(msg, f, i)
+//@   property C07
+//@   requires[C01,C07] f != nil
+//@   ensures result != nil && fresh(result)
+//@   ensures result.Msg == msg && result.File == f && result.Index == i
+//@   ensures len(result.includeTrace) == 0 && result.wrapped == nil
